@@ -10,14 +10,21 @@ def TInv (t : Target) (closed : Bool) : Prop :=
   (t.snd = .exit → t.buf = [] ∧ t.bufClosed = true ∧ t.wClosed = true) ∧
   (t.snd.isWrite = true → t.cop ≠ .none) ∧
   (t.cop = .done → t.rClosed = true) ∧
-  (t.snd = .drain → t.wClosed = true)
+  (t.snd = .drain → t.wClosed = true) ∧
+  (t.snd = .drain → t.cop ≠ .none) ∧
+  (t.cop = .none → (t.snd = .recv ∨ t.snd = .exit) ∧ (t.created = true → t.buf ≠ [] ∧ t.snd = .recv))
 
 theorem TInv.init : TInv {} false := by simp [TInv, SSt.isWrite]
 
 theorem TInv.sndStep {t t' : Target} {c : Bool} (h : TInv t c) (hs : t.sndStep = some t') : TInv t' c := by
   unfold Target.sndStep at hs
   unfold TInv at *
-  grind [SSt.isWrite]
+  repeat' split at hs
+  all_goals (try (cases hs; done))
+  all_goals (injection hs with hs; subst hs; simp only)
+  all_goals (try (split <;> simp_all [SSt.isWrite] <;> grind))
+  all_goals (try (simp_all [SSt.isWrite]; done))
+  all_goals grind [SSt.isWrite]
 
 theorem TInv.copStep {t t' : Target} {c : Bool} (b : Beh) (h : TInv t c) (hs : t.copStep b = some t') : TInv t' c := by
   unfold Target.copStep at hs
@@ -30,7 +37,12 @@ theorem TInv.copStep {t t' : Target} {c : Bool} (b : Beh) (h : TInv t c) (hs : t
 theorem TInv.push {t t' : Target} {ch : List Byte} (h : TInv t false) (hp : t.push ch = some t') : TInv t' false := by
   unfold Target.push at hp
   unfold TInv at *
-  grind [SSt.isWrite]
+  split at hp
+  · injection hp with hp; subst hp
+    have hne : t.buf ++ [ch] ≠ [] := by simp
+    simp only
+    grind [SSt.isWrite]
+  · cases hp
 
 theorem TInv.closeBuf {t : Target} (h : TInv t false) : TInv t.closeBuf true := by
   unfold Target.closeBuf
@@ -49,7 +61,7 @@ theorem progress_open {t : Target} (b : Beh) (h : TInv t false) (hb : t.buf ≠ 
 
 /-- after the buffers are closed, a target whose copier has started and not finished can always
 take a step of its own (so the wait group always reaches zero) -/
-theorem progress_closed {t : Target} (b : Beh) (h : TInv t true) (hn : t.cop ≠ .none) (hd : t.cop ≠ .done) :
+theorem progress_closed {t : Target} (b : Beh) (h : TInv t true) (hn : t.created = true) (hd : t.cop ≠ .done) :
     t.sndStep.isSome = true ∨ (t.copStep b).isSome = true := by
   unfold TInv at h
   unfold Target.sndStep Target.copStep
@@ -356,7 +368,10 @@ theorem no_deadlock (behs : List Beh) (s : State) (hI : GInv behs s) (hf : final
       have hbi : behs[i]? = some behs[i] := List.getElem?_eq_getElem (hl ▸ hi)
       have hinv := ht _ htm
       rw [hcl] at hinv
-      have hn : (s.ts[i]).cop ≠ .none := by intro e; simp [e] at hact
+      have hn : (s.ts[i]).created = true := by
+        cases hcr : (s.ts[i]).created with
+        | true => rfl
+        | false => simp [hcr] at hact
       have hd : (s.ts[i]).cop ≠ .done := by intro e; simp [e] at hact
       exact lift i _ _ hti hbi (progress_closed behs[i] hinv hn hd)
 
